@@ -267,6 +267,22 @@ def findBracket (cs : List Char) : List (Char × Char) → Option (Nat × Char)
 def floatChar (c : Char) : Bool :=
   ('0' ≤ c && c ≤ '9') || "+-._eE \t\ninfatyINFATY".toList.contains c
 
+/-- the leading fraction `value[:openindex]` (only looked at when `openindex > 0`): exactly one `/`,
+    both terms through `float()`.  Numerals outside the integer grammar give `.format` (not modelled:
+    Python's float grammar) unless they contain a character no float literal contains (`ValueError`). -/
+def fracOf (P : List Char) : Except Err Rat :=
+  if P.length > 0 then
+    match splitOnChar '/' P with
+    | [p, q] =>
+      match parseInt? (trimSpaces p), parseInt? (trimSpaces q) with
+      | some p, some q => if q = 0 then .error .zerodiv else .ok ((p : Rat) / (q : Rat))
+      | _, _ =>
+        -- `float(term)`: a character that no Python float literal contains gives ValueError;
+        -- anything else is outside the modelled (integer) numeral grammar
+        if (p ++ q).all floatChar then .error .format else .error .value
+    | _ => .error .assert               -- 'fraction can only have one /'
+  else .ok 1
+
 /-- `fromstring(value)`: result `fraction * array` as exact rationals.
     Numerals outside the integer grammar give `.format` (not modelled: Python's float grammar). -/
 def fromChars (cs : List Char) : Except Err (List Rat) :=
@@ -280,19 +296,7 @@ def fromChars (cs : List Char) : Except Err (List Rat) :=
     match findIdx closeCh cs with
     | none => .error .value                 -- `value.index(']')` raises ValueError
     | some closeIdx =>
-      let fracE : Except Err Rat :=
-        if openIdx > 0 then
-          match splitOnChar '/' (cs.take openIdx) with
-          | [p, q] =>
-            match parseInt? (trimSpaces p), parseInt? (trimSpaces q) with
-            | some p, some q => if q = 0 then .error .zerodiv else .ok ((p : Rat) / (q : Rat))
-            | _, _ =>
-              -- `float(term)`: a character that no Python float literal contains gives ValueError;
-              -- anything else is outside the modelled (integer) numeral grammar
-              if (p ++ q).all floatChar then .error .format else .error .value
-          | _ => .error .assert               -- 'fraction can only have one /'
-        else .ok 1
-      match fracE with
+      match fracOf (cs.take openIdx) with
       | .error e => .error e
       | .ok frac =>
         let inner := (cs.take closeIdx).drop (openIdx + 1)      -- value[openindex+1 : closeindex]
@@ -321,6 +325,32 @@ def render (frac : Option (Int × Nat)) (k : Char × Char) (idx : List Int) : Li
    | none => []
    | some (p, q) => renderInt p ++ '/' :: natDigits q ++ [' ']) ++
   k.1 :: intercalateSp (idx.map renderInt) ++ [k.2]
+
+/-- `n` blanks. -/
+def spaces (n : Nat) : List Char := List.replicate n ' '
+
+/-- value of the optional leading fraction (as `fromChars` computes it: `p / q` in ℚ). -/
+def fracVal : Option (Int × Nat) → Rat
+  | none => 1
+  | some (p, q) => (p : Rat) / (((q : Nat) : Int) : Rat)
+
+/-- the part of an index string before the opening bracket: nothing, or `lead` blanks, `p/q`, `gap` blanks. -/
+def prefixW (frac : Option (Int × Nat)) (lead gap : Nat) : List Char :=
+  match frac with
+  | none => []
+  | some (p, q) => spaces lead ++ renderInt p ++ '/' :: natDigits q ++ spaces gap
+
+/-- bracket contents with free spacing: `pad1` blanks, the first index, every further index preceded by
+    `n+1` blanks, `pad2` blanks. -/
+def bodyW (pad1 : Nat) (first : Int) (rest : List (Nat × Int)) (pad2 : Nat) : List Char :=
+  spaces pad1 ++ renderInt first ++ rest.flatMap (fun ni => spaces (ni.1 + 1) ++ renderInt ni.2) ++ spaces pad2
+
+/-- a well-formed index string with free spacing (everything `render` writes, plus any number of blanks
+    before the fraction, between fraction and bracket, inside the brackets, between indices, after the
+    closing bracket). -/
+def renderW (frac : Option (Int × Nat)) (lead gap : Nat) (k : Char × Char) (pad1 : Nat) (first : Int)
+    (rest : List (Nat × Int)) (pad2 trail : Nat) : List Char :=
+  prefixW frac lead gap ++ k.1 :: bodyW pad1 first rest pad2 ++ k.2 :: spaces trail
 
 /-! ### family predicates and `identifyfamily` (Box.py:834-1058, crystalsystem.py) -/
 
